@@ -174,7 +174,7 @@ def _load_module(obj_dict: dict[str, Any]) -> Module:
 def _load_class(obj_dict: dict[str, Any]) -> Class:
     class_ = Class(
         name=obj_dict["name"],
-        lineno=obj_dict["lineno"],
+        lineno=obj_dict.get("lineno"),
         endlineno=obj_dict.get("endlineno"),
         docstring=_load_docstring(obj_dict),
         decorators=_load_decorators(obj_dict),
@@ -200,7 +200,7 @@ def _load_function(obj_dict: dict[str, Any]) -> Function:
         parameters=Parameters(*obj_dict["parameters"]),
         returns=obj_dict["returns"],
         decorators=_load_decorators(obj_dict),
-        lineno=obj_dict["lineno"],
+        lineno=obj_dict.get("lineno"),
         endlineno=obj_dict.get("endlineno"),
         docstring=_load_docstring(obj_dict),
     )
@@ -211,7 +211,7 @@ def _load_function(obj_dict: dict[str, Any]) -> Function:
 def _load_attribute(obj_dict: dict[str, Any]) -> Attribute:
     attribute = Attribute(
         name=obj_dict["name"],
-        lineno=obj_dict["lineno"],
+        lineno=obj_dict.get("lineno"),
         endlineno=obj_dict.get("endlineno"),
         docstring=_load_docstring(obj_dict),
         value=obj_dict.get("value"),
@@ -225,7 +225,7 @@ def _load_alias(obj_dict: dict[str, Any]) -> Alias:
     return Alias(
         name=obj_dict["name"],
         target=obj_dict["target_path"],
-        lineno=obj_dict["lineno"],
+        lineno=obj_dict.get("lineno"),
         endlineno=obj_dict.get("endlineno"),
     )
 
